@@ -1,6 +1,7 @@
 """registry of harness executables: name -> (variants, extra link flags)"""
 import vf
 HARNESSES = {
+    "model_run": (["plain", "asan"], None),
     "replay_range": (["asan"], None),
 }
 def build_all():
